@@ -21,13 +21,16 @@ WHAT_CRASHED_REMOVE = ("an owner that died inside Container::remove() between in
 
 
 def classify(line):
-    """key, text for an oracle failure line of the driver"""
+    """key, text for an oracle failure line of the driver.  The key is given ONLY when the driver classed the execution as
+    window-orphan: the only failures of that execution are 'a removed entry is still listed' for an entry whose remove() was
+    abandoned and whose slot the (trace-equal) model has in `orph`, i.e. abandoned between the index release and the generation
+    CAS; and, redundantly, every abandoned remove of the program performed at least the 4 accesses up to the release."""
     m = re.search(r"class=([\w-]+)", line)
     cls = m.group(1) if m else "none"
-    if cls == "crashed-remove":
+    if cls == "window-orphan" and re.search(r" (ghost|exact): .*(whose removal completed|although its removal completed)", line):
         hdr = re.search(r"header=\[(\d+) (\S+)", line)
         ks = [int(k) for k in re.findall(r"R\d+k(\d+)", hdr.group(2))] if hdr else []
-        if ks and all(k >= 4 for k in ks):      # the release (4th access of remove) was performed
+        if ks and all(k >= 4 for k in ks):
             return KEY_CRASHED_REMOVE, WHAT_CRASHED_REMOVE
     return None, None
 
@@ -98,6 +101,9 @@ def run(ctx):
         replay = "%s one %s '%s' '%s' | %s" % (exe, hdr[1] if len(hdr) > 2 else "?", hdr[2] if len(hdr) > 2 else "?", sline[0][2:] if sline else "", driver)
         ctx.violation((what + ": " if what else "registry snapshot property violated by the implementation under a concrete schedule: ") + line,
                       {"execution": hist, "harness_cmd": cmd, "how_to_rerun": replay}, key=key)
+    if r["mismatches_spec"] + r["mismatches_model"] > len(r["mismatch_lines"]) and not [m for m in spec_mm if classify(m[2])[0] is None] and not model_mm:
+        ctx.violation("more mismatches (%d) than the %d lines kept by the pipeline and none of the kept ones is unkeyed: cannot exclude a masked failure"
+                      % (r["mismatches_spec"] + r["mismatches_model"], len(r["mismatch_lines"])), {"kept": [m[2] for m in r["mismatch_lines"][:5]]}, no_input=True)
     if model_mm and not [m for m in spec_mm if classify(m[2])[0] is None]:
         lbl, cmd, line = model_mm[0]
         case_no = int(line.split("case=")[1].split()[0])
